@@ -13,8 +13,10 @@
 EXTENDS Props, Blame, Json, IOUtils
 
 VARIABLE l,         \* position of the next event to be explained
-         sv         \* per stream-attached actor: stream items taken in a row although its mailbox was not empty
-tvars == <<vars, l, sv>>
+         sv,        \* per stream-attached actor: stream items taken in a row although its mailbox was not empty
+         pend       \* per client: the operation whose call has begun but whose first effect has not been placed yet
+tvars == <<vars, l, sv, pend>>
+NoOp == [op |-> "none"]
 
 Rec == ndJsonDeserialize(IOEnv.TRACE)
 
@@ -29,7 +31,7 @@ OpOf(r) == [op |-> r.op, h |-> r.h, nh |-> r.nh, a |-> r.a, scr |-> r.scr, d |->
             ty |-> r.ty, nh2 |-> r.nh2, h2 |-> r.h2,
             cfg |-> IF "cfg" \in DOMAIN r THEN r.cfg ELSE NoCfg]
 
-CanStep(t) == TaskCanStepW(t, FALSE)
+CanStep(t) == (t \in Client /\ pend[t] # NoOp) \/ TaskCanStepW(t, FALSE)
 \* why an idle loop could go on although the real one does not: names the guard (and so the property)
 \* a sibling under the same parent died of a failure (a broadcast that does not reach `a` then means the failure spread)
 SibFailed(a) == \E p \in Actor : \E i, j \in 1..Len(act[p].kids) :
@@ -44,7 +46,7 @@ IdleReason(prefix, a) ==
   ELSE prefix \o "closed"
 HeldAsChild(a) == \E p \in Actor : ~Terminated(p) /\ \E i \in 1..Len(act[p].kids) : act[p].kids[i].a = a
 
-TInit == EmptyInit /\ l = 1 /\ sv = [a \in Actor |-> 0] /\ TLCSet(2, {}) /\ TLCSet(3, 1)
+TInit == EmptyInit /\ l = 1 /\ sv = [a \in Actor |-> 0] /\ pend = [c \in Client |-> NoOp] /\ TLCSet(2, {}) /\ TLCSet(3, 1)
 
 -----------------------------------------------------------------------------
 T_Reset == /\ IsEvent("reset")
@@ -132,10 +134,24 @@ T_Cancel == /\ IsEvent("cancel")
 T_OpBegin == /\ IsEvent("op_begin")
              /\ LET c == E.task  o == OpOf(E.o) IN
                 /\ G("ob.cur", cur = c /\ ~yl)
-                /\ G("ob.n", cli[c].stage = "idle" /\ cli[c].n + 1 = E.n)
+                /\ G("ob.n", cli[c].stage = "idle" /\ cli[c].n + 1 = E.n /\ pend[c] = NoOp)
                 /\ G("ob.handle", o.h = "none" \/ o.h \in DOMAIN hnd)
                 /\ (o.op = "claim" => G("ob.claim", hnd[o.h].owner = "pool"))
-                /\ RunIssue(c, o)
+                \* The call has begun.  Its first effect (the message enters the mailbox, the lock is requested, ...) is placed
+                \* by T_Issue: in this poll of the client or - if the call first yields to the executor - in a later one, but
+                \* before the client's next observable step (it suspends for good, or the call returns).
+                /\ pend' = [pend EXCEPT ![c] = o] /\ UNCHANGED vars
+\* a call that was polled once and dropped before it had done anything at all: it never happened
+T_OpEndUnissued == /\ IsEvent("op_end") /\ E.res = "cancelled"
+                   /\ LET c == E.task IN
+                      /\ cur = c /\ pend[c] # NoOp /\ cli[c].n + 1 = E.n
+                      /\ cli' = [cli EXCEPT ![c].n = @ + 1]
+                      /\ pend' = [pend EXCEPT ![c] = NoOp]
+                      /\ yl' = FALSE
+                      /\ UNCHANGED <<act, hnd, rsp, tmr, reg, now, hst, cur>>
+T_Issue == /\ cur \in Client /\ ~yl /\ l' = l /\ pend[cur] # NoOp
+           /\ RunIssue(cur, pend[cur])
+           /\ pend' = [pend EXCEPT ![cur] = NoOp]
 
 \* (a liveness query about an actor that FAILED implicates failure visibility, C06, besides C14)
 ResGuard(op, L) == IF L.a \in Actor /\ act[L.a].pc = "failed"
@@ -335,9 +351,12 @@ T_Silent == /\ cur # None /\ ~yl /\ l' = l
 T_Resume == /\ cur # None /\ yl /\ l <= Len(Rec) /\ E.task = cur /\ E.ev # "block"
             /\ l' = l /\ yl' = FALSE /\ UNCHANGED <<sys, cur>>
 
-TNext == \/ T_Resume \/ T_Reset \/ T_Pick \/ T_Block \/ T_Exit \/ T_Yield \/ T_Advance \/ T_Cancel
-         \/ T_OpBegin \/ T_OpEnd \/ T_Cb \/ T_HBegin \/ T_HEnd \/ T_HAbandon \/ T_Eff \/ T_DefaultNew \/ T_TimerFire
-         \/ T_Quiescent \/ T_Silent \/ T_Unavailable
+TNext == \/ T_OpBegin \/ T_Issue \/ T_OpEndUnissued
+         \/ (T_Reset /\ pend' = [c \in Client |-> NoOp])
+         \/ /\ \/ T_Resume \/ T_Pick \/ T_Block \/ T_Exit \/ T_Yield \/ T_Advance \/ T_Cancel
+               \/ T_OpEnd \/ T_Cb \/ T_HBegin \/ T_HEnd \/ T_HAbandon \/ T_Eff \/ T_DefaultNew \/ T_TimerFire
+               \/ T_Quiescent \/ T_Silent \/ T_Unavailable
+            /\ UNCHANGED pend
 \* Fairness monitor (C13: "an explicit stop or handle drop terminates it even if the stream never ends").  The real
 \* loop picks between a ready mailbox and a ready stream at random (futures::select!), the specification leaves the
 \* choice open; a run in which the stream wins FairBound times in a row against a non-empty (or closed) mailbox has probability
